@@ -169,7 +169,7 @@ func (P *Program) genVCWith(key string, known map[string]Finding) (*gen, error) 
 		g = &gen{P: P, fn: fn, fs: fs, c: newSmtCtx(fs.Strings), key: key, name: shortKey(key),
 			oblNames: map[string]int{}, allVars: allVars, loopMods: loopMods, loopModsN: map[string]map[string]bool{},
 			deferIdx: map[*ssa.Defer]int{}, counters: map[string]int{}, used: map[string]bool{}, snapNames: map[string]bool{},
-			loopInfos: map[*ssa.Function]*loopInfo{}, localCell: map[string]string{}, fieldRefs: map[string]*fieldAccess{}, lockSiteOrd: map[interface{}]int{}, iters: map[*ssa.Range]*iterInfo{}}
+			loopInfos: map[*ssa.Function]*loopInfo{}, localCell: map[string]string{}, fieldRefs: map[string]*fieldAccess{}, finalVals: map[*ssa.FreeVar]Val{}, lockSiteOrd: map[interface{}]int{}, iters: map[*ssa.Range]*iterInfo{}}
 		g.known = known
 		g.run()
 		stable := !g.newVars
@@ -271,6 +271,16 @@ func (g *gen) run() {
 			g.entry.assume(a)
 		}
 		g.paramBind[fv.Name()] = binding{v, xtOf(fv.Type())}
+		if pt, ok := fv.Type().Underlying().(*types.Pointer); ok && finalFreeVar(fv) {
+			// a captured variable that is never reassigned: in contracts its name denotes the value
+			cv, cas := g.freshVal("fvval."+fv.Name(), pt.Elem(), st)
+			for _, a := range cas {
+				g.entry.assume(a)
+			}
+			g.entry.assume(not(app("=", v.(string), "null")))
+			g.finalVals[fv] = cv
+			g.paramBind[fv.Name()] = binding{cv, xtOf(pt.Elem())}
+		}
 	}
 	e0, err := g.bindParams(fs, fn, sig, args, nil, st, old)
 	if err != nil {
@@ -649,6 +659,9 @@ func (g *gen) checkExitLocal(fr *frame, ex exitRec) {
 	for _, c := range g.fs.EnsuresLocal {
 		t, err := e.trBool(c.E)
 		if err != nil {
+			if strings.Contains(err.Error(), "unknown identifier") {
+				continue // a local that is not defined on the path to this exit: the clause does not apply here
+			}
 			g.errorf("%s: ensures_local [%s]: %v", g.name, c.Label, err)
 			continue
 		}
